@@ -1,22 +1,40 @@
 /-
 C12 — sieving polynomials carry correct roots and square-root identities.
 Only property theorems live here (helper lemmas: Ymq/Lemmas/Poly*.lean).
+
+Reading guide.
+* Models: Ymq/Model/SiqsPoly.lean (`prepareA`, `first`, `next`, `finish`, `polyAt s pa idx` = `Poly::first`
+  followed by `idx` calls of `Poly::next`), Ymq/Model/MpqsPoly.lean, Ymq/Model/QsRoots.lean,
+  Ymq/Gen/QsShift.lean (translated `next_lgblock`). `f … = some r` means that the Rust routine returns `r`
+  without reaching a panic site of the checked profile.
+* The factor base is data: a list of `(p, r)`; `FbOk n fb` states what `FBase::new` is expected to provide
+  (primes below 2^24, `r < p`, `r² ≡ n (mod p)`); the oracle of props/c12.py checks it on every run.
+* `so` is the start offset `-(M/2)` of the sieve interval: table entry `r` stands for the position `x = r + so`.
+* `a2aOf n A` is `A` for type 1 polynomials (`n ≢ 1 mod 4`) and `2A` for type 2.
+* `Dividers`/`Inverter`/`inv_mod` are taken at their specification (properties C08, C09).
 -/
-import Mathlib.Tactic.Ring
-import Mathlib.Tactic.LinearCombination
-import Ymq.Model.SiqsPoly
-import Ymq.Model.MpqsPoly
-import Ymq.Model.QsRoots
-import Ymq.Gen.QsShift
+import Ymq.Lemmas.PolySiqsExact
+import Ymq.Lemmas.PolyMpqs
+import Ymq.Lemmas.PolyQs
 
 namespace Ymq.C12
+open Ymq.SiqsPoly Ymq.PolySiqs
+
+/-- what `FBase::new(n, ·)` provides: primes below 2^24 with a reduced square root of `n`. -/
+structure FbOk (n : Int) (fb : List Prime) : Prop where
+  prime : ∀ q ∈ fb, Nat.Prime q.p
+  small : ∀ q ∈ fb, q.p < 2 ^ 24
+  root : ∀ q ∈ fb, q.r < q.p ∧ (q.r : Int) * q.r ≡ n [ZMOD q.p]
+
+/-! ### SIQS -/
 
 /-- SIQS defining identities. Type 1 (`n ≢ 1 mod 4`): with `C = (B² − n)/A`,
 `(Ax+B)² − n = A·(Ax² + 2Bx + C)`; type 2: with `C = (B² − n)/(4A)`,
 `(2Ax+B)² − n = 4A·(Ax² + Bx + C)`. -/
 theorem siqs_identity (A B n x : Int) :
     (A ∣ B * B - n → (A * x + B) ^ 2 - n = A * (A * x ^ 2 + 2 * B * x + (B * B - n) / A)) ∧
-    (4 * A ∣ B * B - n → (2 * A * x + B) ^ 2 - n = 4 * A * (A * x ^ 2 + B * x + (B * B - n) / (4 * A))) := by
+    (4 * A ∣ B * B - n →
+      (2 * A * x + B) ^ 2 - n = 4 * A * (A * x ^ 2 + B * x + (B * B - n) / (4 * A))) := by
   constructor
   · intro h
     have hc : A * ((B * B - n) / A) = B * B - n := Int.mul_ediv_cancel' h
@@ -26,5 +44,423 @@ theorem siqs_identity (A B n x : Int) :
     have hc : 4 * A * ((B * B - n) / (4 * A)) = B * B - n := Int.mul_ediv_cancel' h
     generalize (B * B - n) / (4 * A) = c at hc
     linear_combination (-1 : Int) * hc
+
+example : (7 : Int) ∣ 5 * 5 - 4 ∧ (4 * 3 : Int) ∣ 7 * 7 - 13 := by decide
+
+/-- The identity for the polynomials the model produces: whenever the stored coefficients are the
+exact ones (`Exact`, see `poly_exact`), `polyVal pol x` (= `Ax² + 2Bx + C` resp. `Ax² + Bx + C`)
+satisfies `(Ax+B)² − n = A·P(x)` resp. `(2Ax+B)² − n = 4A·P(x)`. -/
+theorem siqs_identity_model (pol : Poly) (A : Nat) (x : Int) (hex : Exact pol A) :
+    (pol.type2 = false → ((A : Int) * x + pol.b) ^ 2 - pol.n = A * polyVal pol x) ∧
+    (pol.type2 = true → (2 * (A : Int) * x + pol.b) ^ 2 - pol.n = 4 * A * polyVal pol x) := by
+  obtain ⟨ha, hc⟩ := hex
+  constructor
+  · intro ht
+    rw [ht, polyM] at hc
+    simp only [Bool.false_eq_true, if_false] at hc
+    unfold polyVal; rw [ht, ha]
+    simp only [Bool.false_eq_true, if_false]
+    linear_combination (-1 : Int) * hc
+  · intro ht
+    rw [ht, polyM] at hc
+    simp only [if_true] at hc
+    unfold polyVal; rw [ht, ha]
+    simp only [if_true]
+    linear_combination (-1 : Int) * hc
+
+/-- the value returned by the model of `Poly::eval` is `polyVal` -/
+theorem eval_eq_polyVal (pol : Poly) (x v y : Int) (h : eval pol x = some (v, y)) :
+    v = polyVal pol x := by
+  unfold eval at h
+  unfold polyVal
+  by_cases ht : pol.type2 = true
+  · simp only [ht, not_true_eq_false, if_false, if_true, Option.bind_eq_bind] at h ⊢
+    cases h1 : chk256 (pol.a * x) with
+    | none => simp [h1] at h
+    | some ax =>
+      simp only [h1, Option.bind_some] at h
+      cases h2 : chk256 (ax + pol.b) with
+      | none => simp [h2] at h
+      | some u =>
+        simp only [h2, Option.bind_some] at h
+        cases h3 : chk256 (u * x) with
+        | none => simp [h3] at h
+        | some w =>
+          simp only [h3, Option.bind_some] at h
+          cases h4 : chk256 (w + pol.c) with
+          | none => simp [h4] at h
+          | some v' =>
+            simp only [h4, Option.bind_some] at h
+            cases h5 : chk256 (wrap256 (2 * ax) + pol.b) with
+            | none => simp [h5] at h
+            | some y' =>
+              simp only [h5, Option.bind_some, Option.some.injEq, Prod.mk.injEq] at h
+              rw [← h.1, chk256_some h4, chk256_some h3, chk256_some h2, chk256_some h1]; ring
+  · simp only [ht, not_false_eq_true, if_true, Bool.false_eq_true, if_false, Option.bind_eq_bind] at h ⊢
+    cases h1 : chk256 (pol.a * x) with
+    | none => simp [h1] at h
+    | some t =>
+      simp only [h1, Option.bind_some] at h
+      cases h2 : chk256 (t + pol.b) with
+      | none => simp [h2] at h
+      | some axb =>
+        simp only [h2, Option.bind_some] at h
+        cases h3 : chk256 (axb + pol.b) with
+        | none => simp [h3] at h
+        | some u =>
+          simp only [h3, Option.bind_some] at h
+          cases h4 : chk256 (u * x) with
+          | none => simp [h4] at h
+          | some w =>
+            simp only [h4, Option.bind_some] at h
+            cases h5 : chk256 (w + pol.c) with
+            | none => simp [h5] at h
+            | some v' =>
+              simp only [h5, Option.bind_some, Option.some.injEq, Prod.mk.injEq] at h
+              rw [← h.1, chk256_some h5, chk256_some h4, chk256_some h3, chk256_some h2,
+                chk256_some h1]; ring
+
+/-- `Poly::next`, the `u32` min trick: for `r, d < p < 2^31`,
+`min(r + d, (r + d).wrapping_sub(p)) = (r + d) mod p` and
+`let t = r.wrapping_sub(d); min(t, t.wrapping_add(p)) = (r − d) mod p`. -/
+theorem min_trick (r d p : Nat) (hr : r < p) (hd : d < p) (hp : p < 2 ^ 31) :
+    stepUp p d r = (r + d) % p ∧ stepDown p d r = (r + p - d) % p :=
+  ⟨PolyBits.stepUp_eq r d p hr hd hp, PolyBits.stepDown_eq r d p hr hd hp⟩
+
+example : stepUp 7 5 6 = 4 ∧ stepDown 7 5 3 = 5 := by decide
+
+/-- `Poly::next`: for every `idx < 2^63` the Gray codes of `idx` and `idx + 1` differ exactly in bit
+`t = trailing_zeros(idx + 1)` (`tzN`); the code's `bit` equals `t`, is a valid shift amount, and the
+assertion `next_gray == prev_gray ^ (1 << bit)` holds. -/
+theorem gray_step (idx : Nat) (h : idx < 2 ^ 63) :
+    let pg := idx ^^^ (idx >>> 1)
+    let ng := (idx + 1) ^^^ ((idx + 1) >>> 1)
+    let bit := tz64 (pg ^^^ ng)
+    bit = PolyBits.tzN (idx + 1) ∧ bit < 64 ∧ ng = pg ^^^ (1 <<< bit) ∧
+      (∀ i, ng.testBit i = (pg.testBit i ^^ decide (bit = i))) ∧
+      2 ^ bit ∣ idx + 1 ∧ ¬ 2 ^ (bit + 1) ∣ idx + 1 := by
+  intro pg ng bit
+  obtain ⟨h1, h2, h3, h4⟩ := PolyBits.gray_step_aux idx (by omega)
+  obtain ⟨h5, h6⟩ := PolyBits.tzN_pos_spec (idx + 1) (by omega)
+  refine ⟨h1, h2, h3, h4, ?_, ?_⟩
+  · show 2 ^ tz64 (pg ^^^ ng) ∣ idx + 1
+    rw [h1]; exact h5
+  · show ¬ 2 ^ (tz64 (pg ^^^ ng) + 1) ∣ idx + 1
+    rw [h1]; exact h6
+
+/-- The root invariant for one prime `q = (p, r)` of the factor base with `p ∤ a2a`:
+both entries are reduced, `a2a·(r1 + so) + B ≡ −r` and `a2a·(r2 + so) + B ≡ r (mod p)`. -/
+def RootsOk (a2a : Nat) (so : Int) (q : Prime) (b : Int) (r12 : Nat × Nat) : Prop :=
+  r12.1 < q.p ∧ r12.2 < q.p ∧
+  (a2a : Int) * ((r12.1 : Int) + so) + b ≡ -(q.r : Int) [ZMOD q.p] ∧
+  (a2a : Int) * ((r12.2 : Int) + so) + b ≡ (q.r : Int) [ZMOD q.p]
+
+/-- the invariant for the whole table of a polynomial -/
+def TableOk (n : Int) (fb : List Prime) (A : Nat) (so : Int) (pol : Poly) : Prop :=
+  pol.rs.length = fb.length ∧
+  ∀ i (h : i < fb.length) (h' : i < pol.rs.length), a2aOf n A % fb[i].p ≠ 0 →
+    RootsOk (a2aOf n A) so fb[i] pol.b pol.rs[i]
+
+private theorem soOk_of {mm : Nat} (hmm : mm < 2 ^ 32) : SoOk (mkSieve n mm).startOffset := by
+  show SoOk (-((mm : Int) / 2))
+  unfold SoOk; omega
+
+private theorem tableOk_of {n : Int} {fb : List Prime} {pa : APrep} {so : Int} {pol : Poly}
+    (hfb : FbOk n fb) (hw : WalkInv n fb pa so pol) : TableOk n fb pa.a so pol := by
+  obtain ⟨hlen, _, _, _, hroot⟩ := hw
+  refine ⟨hlen, ?_⟩
+  intro i h h' hnd
+  have hmem : fb[i] ∈ fb := List.getElem_mem h
+  exact rootInv_modEq (hroot i h h' (hfb.prime _ hmem)
+    (lt_trans (hfb.small _ hmem) (by norm_num)) hnd)
+
+/-- `roots_inv`: the root invariant holds after `Poly::first` and is preserved by `Poly::next`
+(for every prime of the factor base that does not divide `a2a`, i.e. every odd prime not dividing `A`,
+and the prime 2 for type 1 polynomials). The hypothesis `WalkInv` of the second part is the
+lemma-level form of the invariant (it implies `TableOk`, and is what the first part establishes). -/
+theorem roots_inv (n : Int) (fb : List Prime) (f : Factors) (a mm : Nat) (pa : APrep)
+    (hfb : FbOk n fb) (hn : f.n = n) (hmm : mm < 2 ^ 32)
+    (hpa : prepareA f a fb (-((mm : Int) / 2)) = some pa) :
+    (∀ pol, first (mkSieve n mm) pa = some pol →
+      WalkInv n fb pa (-((mm : Int) / 2)) pol ∧ TableOk n fb a (-((mm : Int) / 2)) pol ∧ pol.idx = 0) ∧
+    (∀ pol pol', WalkInv n fb pa (-((mm : Int) / 2)) pol → next (mkSieve n mm) pa pol = some pol' →
+      WalkInv n fb pa (-((mm : Int) / 2)) pol' ∧ TableOk n fb a (-((mm : Int) / 2)) pol' ∧
+        pol'.idx = pol.idx + 1) := by
+  obtain ⟨B0, ds, fam, hpaa, _, _⟩ := prepareA_fam hpa
+  rw [hn] at fam
+  constructor
+  · intro pol h
+    obtain ⟨hw, hidx⟩ := first_walk (mm := mm) fam (soOk_of hmm) h
+    exact ⟨hw, hpaa ▸ tableOk_of hfb hw, hidx⟩
+  · intro pol pol' hw h
+    obtain ⟨hw', hidx⟩ := next_walk (s := mkSieve n mm) fam (soOk_of (n := n) hmm) hw h
+    exact ⟨hw', hpaa ▸ tableOk_of hfb hw', hidx⟩
+
+/-- `roots_walk`: by induction the invariant holds for EVERY index of the Gray walk: whenever the
+model produces the polynomial number `idx` of the family of `A`, its table satisfies `TableOk`
+(incremental updates with wrapping arithmetic never drift). -/
+theorem roots_walk (n : Int) (fb : List Prime) (f : Factors) (a mm idx : Nat) (pa : APrep) (pol : Poly)
+    (hfb : FbOk n fb) (hn : f.n = n) (hmm : mm < 2 ^ 32)
+    (hpa : prepareA f a fb (-((mm : Int) / 2)) = some pa)
+    (hpol : polyAt (mkSieve n mm) pa idx = some pol) :
+    pol.idx = idx ∧ pol.n = n ∧ pol.type2 = isType2 n ∧ TableOk n fb a (-((mm : Int) / 2)) pol := by
+  obtain ⟨B0, ds, fam, hpaa, _, _⟩ := prepareA_fam hpa
+  rw [hn] at fam
+  obtain ⟨hw, hidx⟩ := polyAt_walk (mm := mm) fam (soOk_of hmm) idx pol hpol
+  exact ⟨hidx, hw.2.2.1, hw.2.1, hpaa ▸ tableOk_of hfb hw⟩
+
+/-- The stored `C` is exact: for a family with at least one factor, whenever the exact quotient
+`(B² − n)/A` (resp. `/(4A)`) fits in an `I256`, `pol.a = A` and `A·C = B² − n` (resp. `4A·C`).
+(The code asserts `pol.c.abs().bits() < 255` *before* storing the new `C`, i.e. on the previous
+polynomial's value, so the size condition is a hypothesis here.) -/
+theorem poly_exact (n : Int) (fb : List Prime) (f : Factors) (a mm idx : Nat) (pa : APrep) (pol : Poly)
+    (hpa : prepareA f a fb (-((mm : Int) / 2)) = some pa) (hne : pa.factors.isEmpty = false)
+    (hpol : polyAt (mkSieve n mm) pa idx = some pol)
+    (hfit : -P255 ≤ (pol.b * pol.b - pol.n) / polyM pol.type2 a ∧
+      (pol.b * pol.b - pol.n) / polyM pol.type2 a < P255) : Exact pol a := by
+  obtain ⟨_, _, _, hpaa, _, _⟩ := prepareA_fam hpa
+  obtain ⟨pol0, hfin, _, _, ha⟩ := polyAt_finish hne idx pol hpol
+  rw [← hpaa] at hfit ⊢
+  exact finish_exact hfin ha hfit
+
+/-- `roots_exact`: for every polynomial of the Gray walk whose stored coefficients are exact, and every
+prime `p = fb[i].p` of the factor base, with `P = polyVal pol` and `x` any sieve position:
+* `p ∤ a2a` (odd `p ∤ A`; also `p = 2` for type 1): `p ∣ P(x + so) ⟺ x ≡ r1p[i] ∨ x ≡ r2p[i] (mod p)`;
+* odd `p ∣ A`: `r1p[i] = r2p[i] < p` and `p ∣ P(x + so) ⟺ x ≡ r1p[i] (mod p)`;
+* `p = 2` at index 0, type 2, `A` odd: `2 ∣ P(x + so) ⟹ x ≡ r1p[0] ∨ x ≡ r2p[0] (mod 2)` (superset). -/
+theorem roots_exact (n : Int) (fb : List Prime) (f : Factors) (a mm idx : Nat) (pa : APrep) (pol : Poly)
+    (hfb : FbOk n fb) (hn : f.n = n) (hmm : mm < 2 ^ 32)
+    (hpa : prepareA f a fb (-((mm : Int) / 2)) = some pa) (hne : pa.factors.isEmpty = false)
+    (hpol : polyAt (mkSieve n mm) pa idx = some pol) (hex : Exact pol a)
+    (i : Nat) (hi : i < fb.length) (hi' : i < pol.rs.length) (x : Int) :
+    (a2aOf n a % fb[i].p ≠ 0 →
+      ((fb[i].p : Int) ∣ polyVal pol (x + -((mm : Int) / 2)) ↔
+        (x ≡ (pol.rs[i].1 : Int) [ZMOD fb[i].p] ∨ x ≡ (pol.rs[i].2 : Int) [ZMOD fb[i].p]))) ∧
+    (a2aOf n a % fb[i].p = 0 → fb[i].p ≠ 2 →
+      pol.rs[i].1 = pol.rs[i].2 ∧ pol.rs[i].1 < fb[i].p ∧
+      ((fb[i].p : Int) ∣ polyVal pol (x + -((mm : Int) / 2)) ↔
+        x ≡ (pol.rs[i].1 : Int) [ZMOD fb[i].p])) ∧
+    (fb[i].p = 2 → i = 0 → isType2 n = true → a % 2 = 1 →
+      ((2 : Int) ∣ polyVal pol (x + -((mm : Int) / 2)) →
+        (x ≡ (pol.rs[i].1 : Int) [ZMOD 2] ∨ x ≡ (pol.rs[i].2 : Int) [ZMOD 2]))) := by
+  obtain ⟨B0, ds, fam, hpaa, _, _⟩ := prepareA_fam hpa
+  rw [hn] at fam
+  obtain ⟨hw, _⟩ := polyAt_walk (mm := mm) fam (soOk_of hmm) idx pol hpol
+  obtain ⟨pol0, hfin, ht0, _, _⟩ := polyAt_finish hne idx pol hpol
+  have hmem : fb[i] ∈ fb := List.getElem_mem hi
+  have hprime := hfb.prime _ hmem
+  have hp31 : fb[i].p < 2 ^ 31 := lt_trans (hfb.small _ hmem) (by norm_num)
+  rw [← hpaa] at hex ⊢
+  refine ⟨?_, ?_, ?_⟩
+  · intro hnd
+    exact exact_generic hw hex i hi hi' hprime hp31 hnd (hfb.root _ hmem).2 x
+  · intro hdiv hp2
+    exact exact_div (mm := mm) fam hfin hex i hi hi' hprime hdiv hp2 x
+  · intro hp2 hi0 ht2 haodd
+    subst hi0
+    have hbodd : pol.b % 2 = 1 := hw.2.2.2.1 ht2
+    exact exact_two (mm := mm) fam hfin (ht0.trans ht2) hex hbodd haodd hi hi' hp2 x
+
+/-! #### non-vacuity of the SIQS theorems: a concrete family (n = 1050589 ≡ 5 mod 8, A = 7·11) -/
+
+private def fbEx : List Prime := [⟨2, 1⟩, ⟨3, 1⟩, ⟨5, 2⟩, ⟨7, 1⟩, ⟨11, 1⟩, ⟨23, 8⟩]
+private def selEx : List Prime := [⟨5, 2⟩, ⟨7, 1⟩, ⟨11, 1⟩]
+private def fEx : Factors := (mkFactors 1050589 selEx).get (by decide)
+
+example : FbOk 1050589 fbEx := ⟨by decide, by decide, by decide⟩
+
+/-- the hypotheses of `roots_inv`, `roots_walk`, `poly_exact`, `roots_exact` are satisfiable -/
+example : ∃ pa pol, prepareA fEx 77 fbEx (-((32768 : Nat) : Int) / 2) = some pa ∧
+    pa.factors.isEmpty = false ∧ polyAt (mkSieve 1050589 32768) pa 1 = some pol ∧ Exact pol 77 := by
+  have h1 : (prepareA fEx 77 fbEx (-((32768 : Nat) : Int) / 2)).isSome = true := by decide
+  obtain ⟨pa, hpa⟩ := Option.isSome_iff_exists.mp h1
+  have h2 : ((prepareA fEx 77 fbEx (-((32768 : Nat) : Int) / 2)).bind fun pa =>
+      (polyAt (mkSieve 1050589 32768) pa 1).bind fun pol =>
+        if pa.factors.isEmpty = false ∧ pol.a = 77 ∧ polyM pol.type2 77 * pol.c = pol.b * pol.b - pol.n
+        then some () else none).isSome = true := by decide
+  rw [hpa] at h2
+  simp only [Option.bind_some] at h2
+  obtain ⟨u, hu⟩ := Option.isSome_iff_exists.mp h2
+  cases hp : polyAt (mkSieve 1050589 32768) pa 1 with
+  | none => rw [hp] at hu; simp at hu
+  | some pol =>
+    rw [hp] at hu
+    simp only [Option.bind_some] at hu
+    split at hu
+    · rename_i hc
+      exact ⟨pa, pol, hpa, hc.1, hp, hc.2.1, hc.2.2⟩
+    · cases hu
+
+/-! ### MPQS -/
+
+open Ymq.MpqsPoly Ymq.PolyMpqs in
+/-- `hensel_lift`: the arithmetic of `make_poly`. For `r² ≡ n (mod D)`, `r² ≤ n` and `i` an inverse of
+`2r` modulo `D`: `b = r + (((n − r²)/D mod D)·i mod D)·D` satisfies `b² ≡ n (mod D²)`; and this is the
+value the model computes (`henselB`), so the code's `debug_assert!((b * b) % (d * d) == n % (d * d))`
+cannot fail. `D` need not be prime (composite pseudo-squares are covered). -/
+theorem hensel_lift (n d r : Nat) :
+    (∀ i, 0 < d → r * r % d = n % d → r * r ≤ n → 2 * r * i % d = 1 % d →
+      (r + (n - r * r) / d % d * i % d * d) * (r + (n - r * r) / d % d * i % d * d) % (d * d)
+        = n % (d * d)) ∧
+    (∀ b, henselB n d r = some b → b * b % (d * d) = n % (d * d)) :=
+  ⟨fun i hd hr hle hi => hensel n d r i hd hr hle hi, fun _ h => henselB_sq h⟩
+
+open Ymq.MpqsPoly in
+example : henselB 1000003000009 211 58 = some 43313 := by decide +kernel
+
+open Ymq.MpqsPoly Ymq.PolyMpqs in
+/-- `mpqs_identity`: every polynomial returned by the model of `make_poly` has `A = D²` and satisfies
+* `n ≡ 1 (mod 4)`: `B` odd, `(2Ax + B)² − n = 4A·(Ax² + Bx + C)`, `bb = (n + B)/2`;
+* otherwise: `B = 2·bb`, `(Ax + bb)² − n = A·(Ax² + Bx + C)`;
+and `dinv·D ≡ 1 (mod n)` (so that `y = |Ax + bb|·dinv` squares to `P(x)` modulo `n`). -/
+theorem mpqs_identity (n d r : Nat) (pol : MpqsPoly.Poly) (h : makePoly n d r = some pol) (x : Int) :
+    pol.a = d * d ∧ pol.d = d ∧ d * pol.dinv % n = 1 % n ∧
+    (n % 4 = 1 → pol.b % 2 = 1 ∧ 2 * pol.bb = n + pol.b ∧
+      (2 * (pol.a : Int) * x + pol.b) ^ 2 - n = 4 * pol.a * mpqsVal pol x) ∧
+    (n % 4 ≠ 1 → pol.b = 2 * pol.bb ∧
+      ((pol.a : Int) * x + pol.bb) ^ 2 - n = pol.a * mpqsVal pol x) := by
+  obtain ⟨ok, hd, _, hdinv⟩ := makePoly_ok h
+  refine ⟨by rw [ok.da, hd], hd, hdinv, ?_, ?_⟩
+  · intro h4
+    obtain ⟨hb, hc, hbb⟩ := ok.odd h4
+    refine ⟨hb, hbb, ?_⟩
+    unfold mpqsVal
+    linear_combination (-1 : Int) * hc
+  · intro h4
+    obtain ⟨hb, hc⟩ := ok.even h4
+    refine ⟨hb, ?_⟩
+    unfold mpqsVal
+    rw [hb]; push_cast
+    linear_combination (-1 : Int) * hc
+
+open Ymq.MpqsPoly in
+example : (makePoly 1000003000009 211 58).isSome = true := by decide +kernel
+
+open Ymq.MpqsPoly Ymq.PolyMpqs in
+/-- `prepare_prime_exact`: all three branches of `Poly::prepare_prime`, for a polynomial returned by
+`make_poly`, a prime `p` of the factor base with root `r` (`r < p`, `r² ≡ n`), `dinv` as
+`batch_inversion` provides it (`dinvModp`: the inverse of `D` modulo `p`, 0 when `p ∣ D`), and any
+sieve position `x` (entry `r` of the table stands for the position `x = r + offset`):
+* `p = 2`: the entries are `(0, 1)`: a superset of the roots;
+* odd `p ∣ D`: `r1 = r2 < p` and `p ∣ P(x + offset) ⟺ x ≡ r1` — for either sign of `C`;
+* odd `p ∤ D`: `r1, r2 < p` and `p ∣ P(x + offset) ⟺ x ≡ r1 ∨ x ≡ r2`. -/
+theorem prepare_prime_exact (n d r0 : Nat) (pol : MpqsPoly.Poly) (hpol : makePoly n d r0 = some pol)
+    (p r : Nat) (offset : Int) (hp : Nat.Prime p) (hr : r < p) (hsq : (r : Int) * r ≡ n [ZMOD p])
+    (r1 r2 : Nat) (h : preparePrime pol p r (dinvModp d p) offset = some (r1, r2)) (x : Int) :
+    (p = 2 → (r1, r2) = (0, 1) ∧ (x ≡ (r1 : Int) [ZMOD p] ∨ x ≡ (r2 : Int) [ZMOD p])) ∧
+    (p ≠ 2 → p ∣ d → r1 = r2 ∧ r1 < p ∧
+      ((p : Int) ∣ mpqsVal pol (x + offset) ↔ x ≡ (r1 : Int) [ZMOD p])) ∧
+    (p ≠ 2 → ¬ p ∣ d → r1 < p ∧ r2 < p ∧
+      ((p : Int) ∣ mpqsVal pol (x + offset) ↔ (x ≡ (r1 : Int) [ZMOD p] ∨ x ≡ (r2 : Int) [ZMOD p]))) := by
+  obtain ⟨ok, hd, _, _⟩ := makePoly_ok hpol
+  refine ⟨?_, ?_, ?_⟩
+  · intro h2
+    subst h2
+    obtain ⟨e, hx⟩ := preparePrime_two (pol := pol) (r := r) (dinv := dinvModp d 2) (offset := offset)
+    rw [e] at h
+    injection h with h
+    injection h with ha hb
+    subst ha hb
+    exact ⟨rfl, hx x⟩
+  · intro h2 hpd
+    have hz : dinvModp d p = 0 := by
+      unfold dinvModp
+      rw [PolyInv.invMod_zero hp.two_le (by rw [Nat.mod_mod]; exact Nat.mod_eq_zero_of_dvd hpd)]
+      rfl
+    rw [hz] at h
+    exact preparePrime_div ok hp h2 (hd ▸ hpd) h x
+  · intro h2 hpd
+    obtain ⟨i, hi, hilt, hinv⟩ := PolyInv.invMod_prime (a := d % p) hp
+      (by rw [Nat.mod_mod]; intro h0; exact hpd (Nat.dvd_of_mod_eq_zero h0))
+    have hz : dinvModp d p = i := by unfold dinvModp; rw [hi]; rfl
+    rw [hz] at h
+    have hi0 : i ≠ 0 := by
+      intro h0; rw [h0, Nat.mul_zero, Nat.zero_mod] at hinv; cases hinv
+    have hdi : pol.d * i % p = 1 := by
+      rw [hd, Nat.mul_mod]
+      rw [Nat.mul_mod, Nat.mod_mod] at hinv
+      exact hinv
+    exact preparePrime_generic ok hp h2 hr hsq hi0 hdi h x
+
+open Ymq.MpqsPoly in
+/-- non-vacuity: `D = 19` lies in the factor base of `n = 1000003000009`; branches `p = 2`, `p ∣ D`, generic -/
+example : ((makePoly 1000003000009 19 7).bind fun pol =>
+    (preparePrime pol 2 1 (dinvModp 19 2) (-16384)).bind fun _ =>
+    (preparePrime pol 19 7 (dinvModp 19 19) (-16384)).bind fun _ =>
+    preparePrime pol 17 7 (dinvModp 19 17) (-16384)).isSome = true := by decide +kernel
+
+/-! ### classical quadratic sieve -/
+
+open Ymq.QsRoots Ymq.PolyQs in
+/-- `qs_roots_exact`: for the context built by `SieveQS::new(n)` and a prime `(p, r)` of the factor base
+(`r < p`, `r² ≡ n`): with `m = 2` in "only odds" mode (`n ≡ 1 mod 8`) and `m = 1` otherwise,
+* forward: `p ∣ (R + m·x)² − n ⟺ x ≡ f1 ∨ x ≡ f2 (mod p)` for the pair returned by `prepare_prime_fwd`;
+* backward: `p ∣ (R − m·(x+1))² − n ⟺ x ≡ b1 ∨ x ≡ b2 (mod p)` for `prepare_prime_bck`;
+for every prime when `m = 1` and every odd prime when `m = 2`; in "only odds" mode the prime 2 gets
+`(0, 1)`, a superset. -/
+theorem qs_roots_exact (n : Nat) (q : QS) (hq : QsRoots.new n = some q) (pr : Prime)
+    (hp : Nat.Prime pr.p) (hr : pr.r < pr.p) (hsq : (pr.r : Int) * pr.r ≡ (n : Int) [ZMOD pr.p])
+    (x : Int) :
+    q.n = n ∧ q.onlyOdds = (n % 8 == 1) ∧
+    (¬ (q.onlyOdds = true ∧ pr.p = 2) →
+      (∀ f1 f2, prepareFwd q pr = some (f1, f2) → f1 < pr.p ∧ f2 < pr.p ∧
+        ((pr.p : Int) ∣ fwdVal q x ↔ (x ≡ (f1 : Int) [ZMOD pr.p] ∨ x ≡ (f2 : Int) [ZMOD pr.p]))) ∧
+      (∀ b1 b2, prepareBck q pr = some (b1, b2) → b1 < pr.p ∧ b2 < pr.p ∧
+        ((pr.p : Int) ∣ bckVal q x ↔ (x ≡ (b1 : Int) [ZMOD pr.p] ∨ x ≡ (b2 : Int) [ZMOD pr.p])))) ∧
+    (q.onlyOdds = true → pr.p = 2 →
+      prepareFwd q pr = some (0, 1) ∧ prepareBck q pr = some (0, 1) ∧
+      (x ≡ ((0 : Nat) : Int) [ZMOD 2] ∨ x ≡ ((1 : Nat) : Int) [ZMOD 2])) := by
+  have hqn : q.n = n ∧ q.onlyOdds = (n % 8 == 1) := by
+    unfold QsRoots.new at hq
+    dsimp only at hq
+    split at hq
+    · cases hq
+    · split at hq
+      · cases hq
+      · injection hq with hq; subst hq; exact ⟨rfl, rfl⟩
+  refine ⟨hqn.1, hqn.2, ?_, ?_⟩
+  · intro hno
+    have hodd : q.onlyOdds = true → pr.p ≠ 2 := fun h1 h2 => hno ⟨h1, h2⟩
+    rw [← hqn.1] at hsq
+    exact ⟨fun f1 f2 h => qs_fwd_exact hp hr hsq hodd h x,
+      fun b1 b2 h => qs_bck_exact hp hr hsq hodd h x⟩
+  · intro hoo hp2
+    obtain ⟨p, r⟩ := pr
+    simp only at hp2 hr
+    subst hp2
+    obtain ⟨e1, e2⟩ := qs_two (q := q) (r := r) hoo hr
+    refine ⟨e1, e2, ?_⟩
+    have : x % 2 = 0 ∨ x % 2 = 1 := by omega
+    rcases this with h | h
+    · left; exact h
+    · right; exact h
+
+open Ymq.QsRoots in
+example : ((QsRoots.new 1000003000009).bind fun q =>
+    (prepareFwd q ⟨17, 7⟩).bind fun _ => prepareBck q ⟨17, 7⟩).isSome = true := by decide +kernel
+
+open Ymq.Gen.QsShift Ymq.PolyQs in
+/-- `lgblock_shift`: the body of `next_lgblock` (translated from the source text) maps both roots
+`r < p < 2^31` to `(r − L) mod p`, where `o = L mod p` and `L = nblocks·BLOCK_SIZE` is the size of a large
+block; and `(r − L) mod p` is the right entry for the next large block: position `x` of the new block is
+position `x + L` of the old one, `x + L ≡ r ⟺ x ≡ (r − L) mod p`. Hence by induction `k` shifts give
+`(r − k·L) mod p`. -/
+theorem lgblock_shift (nb p r1 r2 : Nat) (h1 : r1 < p) (h2 : r2 < p) (hp : p < 2 ^ 31) :
+    shiftPair (blkszModp nb p) p r1 r2
+      = ((r1 + p - blkszModp nb p) % p, (r2 + p - blkszModp nb p) % p) ∧
+    (shiftPair (blkszModp nb p) p r1 r2).1 < p ∧ (shiftPair (blkszModp nb p) p r1 r2).2 < p ∧
+    (∀ x : Int, (x + (largeBlockSize nb : Int) ≡ (r1 : Int) [ZMOD p]) ↔
+      x ≡ ((shiftPair (blkszModp nb p) p r1 r2).1 : Int) [ZMOD p]) ∧
+    (∀ x : Int, (x + (largeBlockSize nb : Int) ≡ (r2 : Int) [ZMOD p]) ↔
+      x ≡ ((shiftPair (blkszModp nb p) p r1 r2).2 : Int) [ZMOD p]) := by
+  have hppos : 0 < p := by omega
+  have ho : blkszModp nb p < p := Nat.mod_lt _ hppos
+  have e := shiftPair_eq (blkszModp nb p) p r1 r2 ho h1 h2 hp
+  rw [e]
+  exact ⟨rfl, Nat.mod_lt _ hppos, Nat.mod_lt _ hppos,
+    fun x => shift_root_iff nb p r1 hppos x, fun x => shift_root_iff nb p r2 hppos x⟩
+
+open Ymq.Gen.QsShift in
+example : shiftPair (blkszModp 2 1009) 1009 5 1000 = (54, 40) := by decide
 
 end Ymq.C12
